@@ -313,8 +313,17 @@ func c15KeyPairs() fw.Result {
 		}
 	}
 	sql := "SELECT * FROM stream MATCH_RECOGNIZE (PARTITION BY a, b ORDER BY ts MEASURES FIRST(id) AS f, LAST(id) AS l ONE ROW PER MATCH PATTERN (A B) DEFINE A AS v = 1, B AS v = 2)"
+	// plus the tuples that collide under any "join the components with a middle" encoding
+	nUni := len(uni)
+	mp := middlePairs()
+	for _, pr := range mp {
+		uni = append(uni, []any{pr[0][0], pr[0][1]}, []any{pr[1][0], pr[1][1]})
+	}
 	for i := 0; i < len(uni); i++ {
 		for j := i + 1; j < len(uni); j++ {
+			if j >= nUni && !(i == j-1 && (j-nUni)%2 == 1) {
+				continue // the middle tuples are only compared with their own partner
+			}
 			var rows []Row
 			for n := 0; n < 4; n++ {
 				t := uni[[]int{i, j}[n%2]]
